@@ -2,6 +2,7 @@ SPECIFICATION Spec
 CONSTANTS Pipes = {1, 2, 3}
           MaxOps = 2
           MaxTicks = 3
-          RTime = 10
+          RMin = 10
+          RMax = 25
 INVARIANTS EventOrder DialerSound ListenerSound ClosedIsFinal CtxClosedIsFinal
 VIEW View
